@@ -65,7 +65,9 @@ def extend_distances(rng, dist, ties):
 
 
 def kernel_case(rng, n, m, c, ties=False, util_kind="acc", big=False):
-    labels = np.array([[rng.randrange(c) for _ in range(m)] for _ in range(n)], dtype=np.int64)
+    # in about a third of the cases the top class(es) of the utility table are carried by NO unit (a class of y_train whose rows are never their unit's nearest row)
+    top = c if rng.random() < 0.65 else max(1, c - rng.randint(1, 2))
+    labels = np.array([[rng.randrange(top) for _ in range(m)] for _ in range(n)], dtype=np.int64)
     if ties:
         dist = np.array([[float(rng.randrange(1, 4)) for _ in range(m)] for _ in range(n)], dtype=np.float64)
     else:
